@@ -689,13 +689,31 @@ fn remove_tuples_from_statement(stmt: Statement) -> Result<Statement, Box<Report
                     }
                     LogArgument::LogExp(exp) => {
                         let mut sep_args = separate_tuple_for_log_call(vec![exp]);
+                        // Only (nested) tuples of expressions can be split into
+                        // separate log arguments.
+                        for arg in &sep_args {
+                            if let LogArgument::LogExp(exp) = arg {
+                                if exp.contains_tuple(None) {
+                                    return Err(TupleError::boxed_report(
+                                        &meta,
+                                        "Tuples cannot be used in arithmetic or boolean expressions.",
+                                    ));
+                                }
+                            }
+                        }
                         new_args.append(&mut sep_args);
                     }
                 }
             }
             Ok(build_log_call(meta, new_args))
         }
-        Statement::Assert { meta, arg } => Ok(build_assert(meta, arg)),
+        Statement::Assert { meta, arg } => {
+            if arg.contains_tuple(None) {
+                Err(TupleError::boxed_report(&meta, "Tuples cannot be used in assertions."))
+            } else {
+                Ok(build_assert(meta, arg))
+            }
+        }
         Statement::Return { meta, value } => {
             if value.contains_tuple(None) {
                 Err(TupleError::boxed_report(&meta, "Tuple cannot be used in return values."))
